@@ -142,7 +142,5 @@ func VerifC15_Limits() {
 	}
 }
 
-var VerifEntries = map[string]func(){
-	"VerifC15_TaxAmount": VerifC15_TaxAmount,
-	"VerifC15_Limits":    VerifC15_Limits,
-}
+var _ = vEntry("VerifC15_TaxAmount", VerifC15_TaxAmount)
+var _ = vEntry("VerifC15_Limits", VerifC15_Limits)
